@@ -321,7 +321,7 @@ def main(argv):
             res = o["run"](tier, seed, TRACEGEN, sh)
             oracle_results.append({"name": o["name"], **res["report"]})
             for m in res["failures"]:
-                findings.append(Finding("oracle", m, o["name"], gen=res.get("gen")))
+                findings.append(Finding(res.get("kind", "oracle"), m, o["name"], gen=res.get("gen")))
         # 4. failing-input search: divergence without a monitor failure -------------------
         has_div = any(f.kind in ("diverge", "guard", "bad") for f in findings)
         has_mon = any(f.kind in ("monitor", "oracle") for f in findings)
